@@ -45,7 +45,7 @@ def run(ctx, n_quick=8, n_thorough=64):
             if kind == "empty_out":
                 cfg["page_size"] = r.choice([1024, 4096])      # (a page image ending in at least 512 zero bytes)
             try:
-                h = H.make_history(sc.path(f"h{i}"), cfg, r, kind=kind, n_commits=r.randint(2, 4))
+                h = H.make_history(sc.path(f"h{i}"), cfg, r, kind=kind, n_commits=4 if kind == "empty_out" else r.randint(2, 4))
             except sqlite3.Error as e:
                 ctx.notes.append(f"history generator error: {e}")
                 continue
